@@ -129,6 +129,52 @@ func LongSym(v *vrt.Ctx) {
 	v.Cover("C15/longsym-ok")
 }
 
+// LongInt: one CROAK or LOAD whose integer length byte is arbitrary (all 256
+// values) in front of 0..8 arbitrary payload bytes and a mode byte: the
+// decoders, the disassembler and the VM accept it only for lengths 0..4 with
+// the payload complete (reference), and then with the value the bytes spell.
+func LongInt(v *vrt.Ctx) {
+	isLoad := v.Choice("instruction", 2) == 1
+	l := v.U8("intlen")
+	n := v.Choice("payload", 9)
+	payload := v.Bytes("int", n)
+	var arg []byte
+	arg = append(arg, l)
+	arg = append(arg, payload...)
+	complete := int(l) <= 4 && n >= int(l)
+	var want uint32
+	if complete {
+		for i := 0; i < int(l); i++ {
+			want = want<<8 | uint32(payload[i])
+		}
+	}
+	if isLoad {
+		b := append([]byte{1, 's'}, arg...)
+		_, sz, _, err := vm.ParseLoad(b)
+		v.Observe("err", err)
+		if !complete {
+			v.Assert(err != nil, "C15/overlong-or-short-integer-rejected")
+			v.Cover("C15/longint-reject")
+			return
+		}
+		v.Assert(err == nil && sz == want, "C15/integer-decoded-exactly")
+		v.Cover("C15/longint-ok")
+		return
+	}
+	b := append(arg, 1) // the mode byte, unless the payload already ran into it
+	_, _, _, err := vm.ParseCroak(b)
+	code := append([]byte{0, byte(vm.CROAK)}, b...)
+	_, derr := vm.NewParseHandler().WithDefaultHandlers().ParseAll(code)
+	v.Observe("err", err)
+	if int(l) > 4 || len(b) < 1+int(l)+1 {
+		v.Assert(err != nil, "C15/overlong-or-short-integer-rejected")
+		v.Assert(derr != nil, "C15/overlong-or-short-integer-rejected-by-the-disassembler")
+		v.Cover("C15/longint-reject")
+		return
+	}
+	v.Cover("C15/longint-ok")
+}
+
 // ParseLoad: arbitrary bytes through the LOAD argument decoder (kept as the
 // smallest smoke test of the executor).
 func ParseLoad(v *vrt.Ctx) {
@@ -432,4 +478,5 @@ var Harnesses = map[string]func(*vrt.Ctx){
 	"ParseLoad": ParseLoad,
 	"Bytes":     Bytes,
 	"LongSym":   LongSym,
+	"LongInt":   LongInt,
 }
